@@ -230,7 +230,10 @@ func (dt DateTime) Add(input Quantity) (DateTime, error) {
 
 	// Reformat to truncate DateTime to initial precision, rounding down to
 	// highest precision value.
-	result, err = parseInFixedZone(string(dt.l), result.Format(string(dt.l)))
+	// (in the zone of the value: the layouts of the coarser precisions write no offset,
+	// and the rendering would otherwise be read back as UTC - another instant, and the
+	// offset of the element lost)
+	result, err = time.ParseInLocation(string(dt.l), result.Format(string(dt.l)), dt.dateTime.Location())
 	if err != nil {
 		return DateTime{}, err
 	}
